@@ -17,6 +17,7 @@ import (
 	"log"
 	"net"
 	"os"
+	"strconv"
 	"strings"
 	"sync"
 	"testing"
@@ -170,13 +171,12 @@ func (f *nFake) stop() {
 
 func nRun(sc nScript) (res nResult) {
 	res.ID = sc.ID
-	l, err := net.Listen("tcp", "127.0.0.1:0")
+	host, port, err := pFreeAddr() // (an address of its own: see there)
 	if err != nil {
 		res.Infra = err.Error()
 		return
 	}
-	addr := l.Addr().String()
-	l.Close()
+	addr := net.JoinHostPort(host, strconv.Itoa(port))
 	fake := &nFake{addr: addr}
 	startFake := func() bool {
 		for k := 0; k < 200; k++ {
